@@ -48,15 +48,20 @@ func (w Writer) Create(
 	return w.otg.DefineRelationship(ctx, w.group.OntologyID(), ontology.RelationshipTypeParentOf, r.OntologyID())
 }
 
-// Delete removes a role from the database. It will fail if the role is builtin
-// or if any users are assigned to the role.
+// Delete removes a role from the database. It will fail if the role is builtin. The
+// role's ontology resource is removed with it, and so is every relationship that
+// assigned the role to a subject or attached a policy to it: a deleted role grants
+// nothing.
 func (w Writer) Delete(ctx context.Context, key Key) error {
-	return w.table.NewDelete().Where(gorp.MatchKeys[Key, Role](key)).Guard(func(_ gorp.Context, r Role) error {
+	if err := w.table.NewDelete().Where(gorp.MatchKeys[Key, Role](key)).Guard(func(_ gorp.Context, r Role) error {
 		if r.Internal && !w.allowInternal {
 			return errors.Wrap(validate.ErrValidation, "cannot delete builtin role")
 		}
 		return nil
-	}).Exec(ctx, w.tx)
+	}).Exec(ctx, w.tx); err != nil {
+		return err
+	}
+	return w.otg.DeleteResource(ctx, OntologyID(key))
 }
 
 // AssignRole assigns a role to a subject (typically a user) by creating an ontology
